@@ -57,6 +57,7 @@ type FuncContract struct {
 	Calls      []*CallSpec
 	Asserts    []*Clause // not used yet
 	MayPanic   bool      // do not generate explicit-panic obligations
+	MayPanicBounds string // non-empty: no bounds obligations either (reason; listed as an assumption)
 	CheckNil   bool
 	Pure       bool // no heap effects (trusted contracts)
 	File       string
@@ -121,6 +122,7 @@ type Structural struct {
 	Pkg    string
 	Props  []string
 	Why    string
+	Allowed []string // storesonly: the functions that may store to the field
 }
 
 type Contracts struct {
@@ -533,6 +535,13 @@ func (C *Contracts) parseFile(path, pkgPath string) error {
 			curF.TrustNote = rest
 		case "maypanic":
 			curF.MayPanic = true
+			if strings.HasPrefix(rest, "bounds") {
+				// "maypanic bounds <why>": index / slice / makeslice panics are not obligations of this contract either
+				curF.MayPanicBounds = strings.TrimSpace(strings.TrimPrefix(rest, "bounds"))
+				if curF.MayPanicBounds == "" {
+					curF.MayPanicBounds = "not checked"
+				}
+			}
 		case "checknil":
 			curF.CheckNil = true
 		case "pure":
@@ -634,6 +643,18 @@ func (C *Contracts) parseFile(path, pkgPath string) error {
 				why = strings.TrimSpace(rest[i+1:])
 			}
 			curStruct = &Structural{Kind: f[0], Target: strings.TrimSuffix(f[1], ":"), Pkg: pkgPath, Why: why}
+			if len(f) > 3 && f[2] == "in" {
+				// structural storesonly <Type.field> in <func>[,<func>...] : <why>
+				lst := rest[strings.Index(rest, " in ")+4:]
+				if i := strings.Index(lst, " :"); i >= 0 {
+					lst = lst[:i]
+				}
+				for _, a := range strings.Split(lst, ",") {
+					if a = strings.TrimSpace(a); a != "" {
+						curStruct.Allowed = append(curStruct.Allowed, a)
+					}
+				}
+			}
 			C.Structurals = append(C.Structurals, curStruct)
 			curF, curLoop, curLemma, curAxiom = nil, nil, nil, nil
 		case "lemma":
